@@ -252,8 +252,7 @@ func doQuery(ctx context.Context, st storage.Storage, s *run.Session, side int, 
 	return
 }
 
-// flatten is the walk of a listing without its page structure: every entry once,
-// in order of first appearance.
+// flatten is the walk of a listing without its page structure: the set of its entries.
 func flatten(pages [][]string) string {
 	seen := map[string]bool{}
 	var out []string
@@ -265,20 +264,24 @@ func flatten(pages [][]string) string {
 			}
 		}
 	}
+	sort.Strings(out)
 	return strings.Join(out, " ")
 }
 
-// stripPrefixes renders the pages without their common-prefix entries.
+// stripPrefixes renders the entries of a walk without the common prefixes.
 func stripPrefixes(pages [][]string) string {
-	var sb strings.Builder
+	var out []string
+	seen := map[string]bool{}
 	for _, p := range pages {
 		for _, e := range p {
-			if !strings.HasPrefix(e, "prefix(") {
-				sb.WriteString(e + " ")
+			if !strings.HasPrefix(e, "prefix(") && !seen[e] {
+				seen[e] = true
+				out = append(out, e)
 			}
 		}
 	}
-	return sb.String()
+	sort.Strings(out)
+	return strings.Join(out, " ")
 }
 
 // prefixesLost: the common prefixes of walk a are a proper subset of those of walk b.
@@ -434,6 +437,9 @@ func doQuery1(ctx context.Context, st storage.Storage, s *run.Session, side int,
 				return sb.String() + errs(err)
 			}
 			fmt.Fprintf(&sb, "page[trunc=%v", res.IsTruncated)
+			// continuation as storage.ListAllObjectsOfBucket does it: after the last object of the
+			// page; after the last common prefix only when the page has no object (the storage may
+			// report common prefixes that sort behind objects it has not listed yet)
 			last := ""
 			var entries []string
 			for _, o := range res.Objects {
@@ -444,7 +450,7 @@ func doQuery1(ctx context.Context, st storage.Storage, s *run.Session, side int,
 			}
 			for _, p := range res.CommonPrefixes {
 				entries = append(entries, fmt.Sprintf("prefix(%q)", p))
-				if p > last {
+				if len(res.Objects) == 0 && p > last {
 					last = p
 				}
 			}
@@ -453,7 +459,7 @@ func doQuery1(ctx context.Context, st storage.Storage, s *run.Session, side int,
 			}
 			*pages = append(*pages, entries)
 			sb.WriteString("] ")
-			if !res.IsTruncated || last == "" {
+			if !res.IsTruncated || last == "" || (startAfter != nil && *startAfter == last) {
 				break
 			}
 			l := last
@@ -918,8 +924,9 @@ func runCase(env *ev.Env, c Case) (o ev.Outcome) {
 			if ca != cb && !strings.Contains(ca, "ERR ") && !strings.Contains(cb, "ERR ") && (q.Kind == "listObjects" || q.Kind == "listVersions") &&
 				q.MaxKeys > 0 && maxPage(pb) > q.MaxKeys && maxPage(pa) <= q.MaxKeys && flatten(pa) == flatten(pb) {
 				// the storage itself answered a page with more than MaxKeys entries (MaxKeys objects plus
-				// common prefixes): the endpoint cuts the page at MaxKeys and serves the rest on the next
-				// page. Same entries in the same order; where the page breaks fall is not the client's translation.
+				// common prefixes, which may sort behind objects not listed yet): the endpoint cuts the page
+				// at MaxKeys and serves the rest on later pages. The complete walks hold the same entries;
+				// where the page breaks fall is not the client's translation.
 				o.Count("note:"+q.Kind+"-direct-page-exceeds-maxKeys", 1)
 				ca = cb
 			}
